@@ -41,6 +41,7 @@ var pureFunSpecs = []pfSpec{
 	// x/rewards/keeper/utils.go (C19), x/liquidationsV2/types/offset.go (C15, C09)
 	{pkg: "x/rewards/keeper", fn: "SplitTotalAmountPerEpoch", coq: "gen_rewards_SplitTotalAmountPerEpoch"},
 	{pkg: "x/liquidationsV2/types", fn: "GetSliceStartEndForLiquidations", coq: "gen_liquidationsV2_GetSliceStartEnd"},
+	{pkg: "x/liquidation/types", fn: "GetSliceStartEndForLiquidations", coq: "gen_liquidation_GetSliceStartEnd"},
 	// x/vault/keeper/vault.go (C03, C10)
 	{pkg: "x/vault/keeper", recv: "Keeper", fn: "GetAmountOfOtherToken", coq: "gen_vault_GetAmountOfOtherToken",
 		reads: []string{"GetAsset"}, errs: map[string]int{"assettypes.ErrorAssetDoesNotExist": 3}},
